@@ -119,6 +119,37 @@ CLAIMED["C18"] = dict(
          "file system are exercised only by the bounded stand-in audio_paths (8 types x depths x names x str/Path x in/outside).",
     technique=TECH + "; heap of adapter instances built by the real constructors; uninterpreted path algebra",
 )
+_AOEF_NOTE = ("Trusted / not machine-checked: the DataAdapter base-class contract (dict-based bodies of adapters.py: to_aoef registers and "
+              "returns the stored object, from_id returns it, values() lists the store in insertion order, keys unique) is assumed, not "
+              "executed; the step from the per-adapter, per-field and collection-level obligations to `load(save(x)) == x` is a fixed "
+              "structural induction over the adapter dependency DAG (written in DESIGN.md), exercised end to end by the bounded stand-in; "
+              "pydantic construction contract; JSON layer identity (stand-in only); preconditions from the quantifier (simple-label terms, "
+              "distinct feature labels, valid embedded objects, distinct identifiers in top-level lists).")
+CLAIMED["C01"] = dict(
+    level="proof",
+    text="For each of the 15 DataAdapter subclasses (NoteAdapter inlined) the REAL assemble_aoef and then the REAL "
+         "assemble_soundevent are executed on a symbolic object, with the adapter graph built by the real constructors and "
+         "sub-adapter calls under the base-class contract: one obligation per declared field (y.f == x.f, incl. list order, "
+         "elisions such as time_expansion == 1.0, feature dicts) and `nothing registered on save is missing on load`. Per "
+         "collection adapter (8): every reachable adapter's store is emitted after the last call that can add to it, lists "
+         "are loaded in dependency order from the field they were saved to, the collection's own fields round trip; dispatch "
+         "tables pick each type's own adapter; a fresh adapter graph per call. Fixpoint follows (the round trip is the identity).",
+    note=_AOEF_NOTE,
+    technique=TECH + "; heap of adapter objects; per-field obligations generated from the class definitions",
+)
+CLAIMED["C02"] = dict(
+    level="proof",
+    text="Closure under reference: every reference an adapter writes is the key of an object passed through the target "
+         "adapter's to_aoef (otherwise the load side, which assumes only registered objects present, fails its `load-raises` "
+         "obligation); every adapter reachable from a collection adapter is emitted in a top-level field by a values() snapshot "
+         "taken after the last call that can register with it, or as the converted list itself when nothing else can "
+         "(emission obligations, 8 collection types); sequences convert their parent through their own to_aoef before being "
+         "stored (parent-first); load order is a topological order of the look-up dependencies.",
+    note=_AOEF_NOTE + " Uniqueness of identifiers within a list and exact reachability are consequences of the assumed base-class "
+         "contract (stores keyed by identifier, only to_aoef adds); the bounded stand-in aoef_document_closure checks them on the JSON text "
+         "with an independent reachability walk.",
+    technique=TECH + "; ghost-effect flow analysis of the real collection adapters (program-order event log)",
+)
 ALL = [f"C{n:02d}" for n in range(1, 21)]
 NOT_APPLICABLE = {p: "check not built yet in this session (work in progress; see DESIGN.md section 12 build order)"
                   for p in ALL if p not in CLAIMED}
